@@ -141,7 +141,7 @@ func runC13(seed uint64, n int, tier string) {
 }
 
 func runC13Case(id string, c *c13Case) {
-	defer recoverCase(id, c)
+	defer watchCase(id, c)()
 	dev := &sim.CLIDevice{Prompt: []byte("router#"), Banner: sim.Atoms([]byte("router#"))}
 	for _, o := range c.PreOuts {
 		dev.Outputs = append(dev.Outputs, sim.Atoms([]byte(o)))
